@@ -36,8 +36,8 @@ deriving DecidableEq, Repr
 /-- `encodeBlockHandle` -/
 def BH.encode (h : BH) : Bytes := uvarint h.offset ++ uvarint h.length
 
-/-- `decodeBlockHandle`: handle and bytes consumed (`none` = the `n == 0` result; a varint overflow, on
-which the code slices with a negative index, is `none` too) -/
+/-- `decodeBlockHandle`: handle and bytes consumed (`none` = the `n == 0` result; a varint overflow is `none` too:
+the code as repaired (wp64) treats it like a short buffer — `BH.decodeGo` below spells out what it did before) -/
 def BH.decode (src : Bytes) : Option (BH × Nat) :=
   match readUvarint src with
   | none => none
@@ -197,8 +197,9 @@ inductive Result (α : Type) where
 deriving DecidableEq, Repr
 
 /-- `Reader.readRawBlock`.  `none` = corrupted (checksum mismatch, unknown compression type, or a snappy block
-that does not decode).  A short read (which the code lets pass when the error is `io.EOF`, continuing on
-whatever the buffer held) is `none` as well. -/
+that does not decode).  A short read — the handle reaches beyond the end of the file — is `none` as well: a
+corrupted block since repair 5 of wp64 (`readBlockX` / `poolRead` below model what the code did before: it went on
+with whatever the recycled buffer held). -/
 def readRawBlock (cksum : Bytes → Nat) (file : Bytes) (bh : BH) (verify : Bool) : Option Bytes :=
   let data := (file.drop bh.offset).take (bh.length + Gen.blockTrailerLen)
   if data.length < bh.length + Gen.blockTrailerLen then none
@@ -285,38 +286,176 @@ def metaLoop (policy : Option FilterPolicy) :
           | some (bh, _) => (flt1, some bh)
       else metaLoop policy fuel c.rest c.lim c.key flt
 
+/-! ## the table-reader repairs of wp64 as switches
+
+`table.NewReader` / `Reader.readRawBlock` / `decodeBlockHandle` were repaired in three commits (findings 1, 2 and 5 of
+the Recover hunt wp60).  Each repaired place is a switch of `ReaderFix`; `ReaderFix.repaired` is the code the
+theorems of C13 are about, `ReaderFix.code` takes the four values from the facts that `tools/extract` reads off the
+working tree (`C13.code_reader_repaired` ties the two), `ReaderFix.asFound` is the code before the repairs (used by
+the decided pre-repair traces in `Props/C13.lean`). -/
+
+structure ReaderFix where
+  /-- finding 1: a corrupted metaindex block costs the filter, not the table -/
+  metaCostsFilterOnly : Bool
+  /-- finding 2: `NewReader` rejects footer handles that do not lie within the file -/
+  footerHandlesChecked : Bool
+  /-- finding 5: `readRawBlock` treats a short read as a corrupted block -/
+  shortReadIsCorruption : Bool
+  /-- finding 2: `decodeBlockHandle` treats an overflowing varint like a short one -/
+  decodeRejectsOverflow : Bool
+deriving DecidableEq, Repr
+
+def ReaderFix.repaired : ReaderFix := ⟨true, true, true, true⟩
+
+def ReaderFix.asFound : ReaderFix := ⟨false, false, false, false⟩
+
+/-- the reader as the working tree has it (regenerated facts) -/
+def ReaderFix.code : ReaderFix :=
+  ⟨Gen.tblMetaindexCorruptionCostsFilterOnly, Gen.tblFooterHandlesChecked, Gen.tblShortReadIsCorruption,
+   Gen.tblDecodeHandleRejectsOverflow⟩
+
+/-- `binary.Uvarint` reports an overflow (`n < 0`) rather than a short buffer (`n == 0`): an 11th byte is reached,
+or the 10th byte ends the number with a value above 1 -/
+def uvarintOverflow (bs : Bytes) : Bool :=
+  (readUvarint bs).isNone && (decide (bs.length > 10) || (bs.take 10).any fun b => decide (b.toNat < 128))
+
+/-- `-n` for the `n < 0` that `binary.Uvarint` returns on an overflow: `i + 1` for the byte index `i` it stopped at -/
+def uvarintOverflowCount (bs : Bytes) : Nat :=
+  if (bs.take 10).all fun b => decide (b.toNat ≥ 128) then 11 else 10
+
+/-- what the caller of `decodeBlockHandle` sees: the handle and the count `n` -/
+inductive DecRes where
+  /-- `n > 0` -/
+  | ok (bh : BH) (n : Nat)
+  /-- `n == 0` -/
+  | bad
+  /-- `n < 0` (before the repair only: the second varint overflows, `n + m < 0`); the handle has length 0 -/
+  | neg (bh : BH)
+  /-- `src[n:]` with a negative `n` (before the repair only: the first varint overflows) -/
+  | panics
+deriving DecidableEq, Repr
+
+/-- `decodeBlockHandle` with the overflow cases spelled out; `rej` = the repair is in -/
+def BH.decodeGo (rej : Bool) (src : Bytes) : DecRes :=
+  match readUvarint src with
+  | none => if !rej && uvarintOverflow src then .panics else .bad
+  | some (off, n) =>
+    match readUvarint (src.drop n) with
+    | some (len, m) => .ok ⟨off, len⟩ (n + m)
+    | none =>
+      if !rej && uvarintOverflow (src.drop n) then
+        -- `n + m` with `m = -(i + 1)`: zero is "bad handle" for the caller, below zero is not
+        if n = uvarintOverflowCount (src.drop n) then .bad else .neg ⟨off, 0⟩
+      else .bad
+
+/-- the handle lies within the part of the file in front of the footer (the check of repair 2; the trailer of a
+block that passes still lies within the file, the footer being longer than a trailer) -/
+def BH.inFile (bh : BH) (footerPos : Nat) : Bool :=
+  decide (bh.offset ≤ footerPos) && decide (bh.length ≤ footerPos - bh.offset)
+
+/-- the buffer `readRawBlock` looks at when the short read goes unnoticed (before repair 5): `bpool.Get(n)` hands out
+a recycled buffer holding `stale` (zeroes beyond it), `ReadAt` overwrites as many bytes as the file has from
+`bh.offset` on -/
+def poolRead (stale file : Bytes) (bh : BH) : Bytes :=
+  let need := bh.length + Gen.blockTrailerLen
+  let got := (file.drop bh.offset).take need
+  got ++ ((stale ++ List.replicate need 0).drop got.length).take (need - got.length)
+
+/-- `Reader.readBlock` under the switches: with repair 5 the model's `readBlock` (a short read is corruption),
+without it the block is taken from the pool buffer -/
+def readBlockX (fx : ReaderFix) (stale : Bytes) (cksum : Bytes → Nat) (file : Bytes) (bh : BH) (verify : Bool) :
+    Option BlockR :=
+  if fx.shortReadIsCorruption then readBlock cksum file bh verify
+  else readBlock cksum (poolRead stale file bh) ⟨0, bh.length⟩ verify
+
+/-- why `NewReader` left the reader with a permanent error (`panics`: it did not return at all) -/
+inductive OpenErr where
+  | footer | metaBlock | indexBlock | panics
+deriving DecidableEq, Repr
+
+/-- the footer part of `NewReader`: size, magic, the two handles -/
+def Table.footerHandlesX (fx : ReaderFix) (file : Bytes) : Except OpenErr (BH × BH) :=
+  if file.length < Gen.footerLen then .error .footer
+  else
+    let footer := file.drop (file.length - Gen.footerLen)
+    if footer.drop (Gen.footerLen - Gen.tableMagic.length) ≠ Gen.tableMagic then .error .footer
+    else
+      match BH.decodeGo fx.decodeRejectsOverflow footer with
+      | .bad => .error .footer
+      | .panics => .error .panics
+      | .neg _ => .error .panics          -- `footer[n:]` with `n < 0`
+      | .ok metaBH n =>
+        match BH.decodeGo fx.decodeRejectsOverflow (footer.drop n) with
+        | .bad => .error .footer
+        | .panics => .error .panics
+        | .neg indexBH => .ok (metaBH, indexBH)   -- `n != 0`: the half-decoded handle is used
+        | .ok indexBH _ => .ok (metaBH, indexBH)
+
+/-- the handles a repaired reader takes from the footer (`none`: the footer error) -/
+def Table.footerHandles (file : Bytes) : Option (BH × BH) :=
+  match Table.footerHandlesX .repaired file with
+  | .ok p => some p
+  | .error _ => none
+
+/-- outcome of `NewReader`: the reader or its permanent error, and the lengths of the buffers requested from the pool
+for the two blocks the footer names (`r.bpool.Get(int(bh.length + blockTrailerLen))`), in order -/
+structure OpenOut where
+  res : Except OpenErr TableR
+  bufs : List Nat
+
+/-- the permanent error, if any -/
+def OpenOut.err (o : OpenOut) : Option OpenErr :=
+  match o.res with
+  | .ok _ => none
+  | .error e => some e
+
+/-- `NewReader` after the footer has been decoded (`cache == nil`).  `stale` is what the recycled pool buffers hold
+(only looked at without repair 5; the filter block is always read as repaired). -/
+def Table.openBody (fx : ReaderFix) (stale : Bytes) (cfg : TableCfg) (verify : Bool) (file : Bytes)
+    (metaBH indexBH : BH) : OpenOut :=
+  let footerPos := file.length - Gen.footerLen
+  if fx.footerHandlesChecked && !(metaBH.inFile footerPos && indexBH.inFile footerPos) then ⟨.error .footer, []⟩
+  else
+    let mbuf := metaBH.length + Gen.blockTrailerLen
+    let ibuf := indexBH.length + Gen.blockTrailerLen
+    let metaRes : Option (Option FilterPolicy × Option BH) :=
+      match readBlockX fx stale cfg.cksum file metaBH true with
+      | some mb => some (metaLoop cfg.filter (mb.restartsOffset + 1) mb.data mb.restartsOffset [] none)
+      | none => if fx.metaCostsFilterOnly then some (none, none) else none
+    match metaRes with
+    | none => ⟨.error .metaBlock, [mbuf]⟩
+    | some (flt, fbh) =>
+      let filterBH := fbh.getD ⟨0, 0⟩
+      let dataEnd := match fbh with
+        | some h => h.offset
+        | none => metaBH.offset
+      match readBlockX fx stale cfg.cksum file indexBH true with
+      | none => ⟨.error .indexBlock, [mbuf, ibuf]⟩
+      | some ib =>
+        let filter := match flt with
+          | none => none
+          | some p =>
+            match readFilterBlock cfg.cksum file filterBH with
+            | none => none       -- "Don't use filter then."
+            | some fb => some (p, fb)
+        ⟨.ok ⟨cfg.cmp, cfg.cksum, verify, file, metaBH, indexBH, filterBH, dataEnd, ib, filter⟩, [mbuf, ibuf]⟩
+
+/-- `NewReader` with `cache == nil` under the switches -/
+def Table.openX (fx : ReaderFix) (stale : Bytes) (cfg : TableCfg) (verify : Bool) (file : Bytes) : OpenOut :=
+  match Table.footerHandlesX fx file with
+  | .error e => ⟨.error e, []⟩
+  | .ok (metaBH, indexBH) => Table.openBody fx stale cfg verify file metaBH indexBH
+
+/-- `NewReader` as repaired, with the class of the permanent error -/
+def Table.openE (cfg : TableCfg) (verify : Bool) (file : Bytes) : Except OpenErr TableR :=
+  (Table.openX .repaired [] cfg verify file).res
+
 /-- `NewReader` with `cache == nil`; `none` = the reader carries a corruption error (`r.err`), which every
 later call returns -/
 def Table.open (cfg : TableCfg) (verify : Bool) (file : Bytes) : Option TableR :=
-  if file.length < Gen.footerLen then none
-  else
-    let footer := file.drop (file.length - Gen.footerLen)
-    if footer.drop (Gen.footerLen - Gen.tableMagic.length) ≠ Gen.tableMagic then none
-    else
-      match BH.decode footer with
-      | none => none
-      | some (metaBH, n) =>
-        match BH.decode (footer.drop n) with
-        | none => none
-        | some (indexBH, _) =>
-          match readBlock cfg.cksum file metaBH true with
-          | none => none
-          | some mb =>
-            let (flt, fbh) := metaLoop cfg.filter (mb.restartsOffset + 1) mb.data mb.restartsOffset [] none
-            let filterBH := fbh.getD ⟨0, 0⟩
-            let dataEnd := match fbh with
-              | some h => h.offset
-              | none => metaBH.offset
-            match readBlock cfg.cksum file indexBH true with
-            | none => none
-            | some ib =>
-              let filter := match flt with
-                | none => none
-                | some p =>
-                  match readFilterBlock cfg.cksum file filterBH with
-                  | none => none       -- "Don't use filter then."
-                  | some fb => some (p, fb)
-              some ⟨cfg.cmp, cfg.cksum, verify, file, metaBH, indexBH, filterBH, dataEnd, ib, filter⟩
+  match Table.openE cfg verify file with
+  | .ok t => some t
+  | .error _ => none
 
 namespace TableR
 
